@@ -59,6 +59,12 @@ CLAIMED = {
             "without validating; validator/truncate/loop order; reset only skippable when empty; header persisted on "
             "every write exit; only the validator updates the computed version. Not the resume index value.",
             "DESIGN.md §3.G, §4 C19"),
+    "C20": ("bound-class inventory of unchecked read sites (dominating guards + backward slices), publication-site "
+            "classification, guard-carrying type rules",
+            "No read of mapped/file bytes is bounded only by stored+pushed or by nothing; every publication of the shared "
+            "length is of a class that keeps it within what is on disk; sources caching absolute offsets pin the "
+            "placement; page entries published after the region covers them. Not the arithmetic exactness of offsets.",
+            "DESIGN.md §3.E, §4 C20"),
 }
 
 NA = {
